@@ -28,6 +28,7 @@ cd /; git -C /repo worktree remove --force "$wt" >/dev/null 2>&1
 echo "demo_clean_exit=$demo_clean demo_patched_exit=$demo_patched suite_exit=$suite" | tee -a "$log"
 if [ $demo_clean -ne 0 ] || [ $demo_patched -eq 0 ] || [ $suite -ne 0 ]; then echo "SEED NOT CONFIRMED: $name" | tee -a "$log"; exit 1; fi
 # run our checks against it
+if [ -n "${CONFIRM_ONLY:-}" ]; then exit 0; fi   # confirmation only (checks run later, e.g. while /repo is in use)
 if ! git -C /repo diff --quiet; then echo "/repo dirty, not running checks" | tee -a "$log"; exit 2; fi
 git -C /repo apply "$out/patch.diff" || exit 2
 export VERIF_EVIDENCE_DIR=/verif/work/evidence-scratch; mkdir -p $VERIF_EVIDENCE_DIR
